@@ -592,6 +592,7 @@ type GenOpts struct {
 	Sub          bool // write some top-level nodes in a submodule (not together with Aug)
 	AugSub       bool // with Aug: the augments are written in a submodule of the augmenting module
 	Prefix       string // prefix of the main module ("" = its name, m)
+	ModName      string // name of the main module ("" = m)
 	Presence     bool
 	Wraps        bool // write some leaf types through a typedef, as a union member or as a leafref to a sibling
 	NoUnionWrap  bool // ... but not as a union member (stores whose leaves have one Go type)
@@ -860,6 +861,9 @@ func GenSchema(r *rand.Rand, o GenOpts) *Schema {
 	s := &Schema{Name: "m", Prefix: "m", NS: "urn:m"}
 	if o.Prefix != "" {
 		s.Prefix = o.Prefix
+	}
+	if o.ModName != "" {
+		s.Name = o.ModName
 	}
 	scope := map[string]bool{}
 	s.Top = g.children(1, scope, false)
